@@ -425,6 +425,21 @@ func (s *schemaCtx) paths(sch map[string]any, prefix []string, out map[string]bo
 			}
 		}
 	}
+	// keys allowed by pattern: one concrete key per pattern stands for them (an anchored literal prefix is completed;
+	// any other pattern is named as such - the strict parser defines no key by pattern, so it is a path of the schema
+	// the parser lacks unless the level is a free-form map there)
+	if pp, ok := sch["patternProperties"].(map[string]any); ok {
+		for pat, v := range pp {
+			if b, isBool := v.(bool); isBool && !b {
+				continue // a pattern that forbids
+			}
+			key := "{pattern " + pat + "}"
+			if m := regexp.MustCompile(`^\^([A-Za-z0-9_-]+)$`).FindStringSubmatch(pat); m != nil {
+				key = m[1] + "verif"
+			}
+			out[strings.Join(append(append([]string{}, prefix...), key), ".")] = true
+		}
+	}
 	if ap, ok := sch["additionalProperties"].(map[string]any); ok {
 		r, _ := s.resolve(ap)
 		if r != nil {
@@ -725,7 +740,16 @@ func enumC17(env *engine.Env, yield func(any) bool) {
 	m.DebTriggers = map[string][]string{"interest": {"a"}, "activate_noawait": {"b"}}
 	m.Epoch, m.Release, m.Prerelease, m.Metadata, m.Section, m.Priority, m.Vendor, m.Homepage, m.License = "1", "2", "rc1", "git", "utils", "optional", "V", "https://h", "MIT"
 	m.ArchPkgbase, m.ArchPackager = "base", "pk"
-	metas = append(metas, baseMeta(), m)
+	// lists with an item written twice, every relational operator, an empty list, a single item
+	m2, m3 := baseMeta(), baseMeta()
+	m2.Rel, m3.Rel = map[string][]model.RelItem{}, map[string][]model.RelItem{}
+	for _, k := range model.RelKinds {
+		m2.Rel[k] = relItems(k, "dup")
+		m3.Rel[k] = relItems(k, "ops")
+	}
+	m2.IPKTags, m2.RPMPrefixes = []string{"t", "t"}, []string{"/usr", "/usr"}
+	m2.DebTriggers = map[string][]string{"interest": {"a", "a"}, "activate": {"a"}}
+	metas = append(metas, baseMeta(), m, m2, m3)
 	for i, mc := range metas {
 		for _, f := range Formats {
 			d := map[string]any(metaDoc(mc, f, t))
@@ -1086,6 +1110,11 @@ func checkC17(env *engine.Env, ci any) engine.Outcome {
 		}
 		sort.Strings(ks)
 		for _, k := range ks {
+			if i := strings.LastIndexByte(k, '.'); i > 0 && strings.Contains(k[i+1:], "verif") || strings.Contains(k, "{pattern ") {
+				if _, freeForm := pp[k[:max(strings.LastIndexByte(k, '.'), 0)]]; freeForm {
+					continue // keys by pattern below a level the parser reads as a free-form map
+				}
+			}
 			if _, ok := pp[k]; !ok {
 				viol("schema:path-missing-in-parser:"+k, "the schema allows key path %s, which the strict parser does not define", k)
 			}
